@@ -363,7 +363,7 @@ func (env *Env) toSeq(v SV) *Seq {
 			sfail("bytes(): element type %s is not scalar", typeStr(t.Elem()))
 		}
 		ref, off := v.V[0].T, v.V[1].T
-		return &Seq{Len: v.V[2].T, At: func(i string) string { return sel(mem, ref, add(off, i)) }}
+		return &Seq{Len: v.V[2].T, At: func(i string) string { return x.vc.read(mem, ref, add(off, i)) }}
 	case *types.Array:
 		var elems []string
 		for _, c := range v.V {
@@ -373,7 +373,7 @@ func (env *Env) toSeq(v SV) *Seq {
 	case *types.Pointer:
 		if arr, ok := t.Elem().Underlying().(*types.Array); ok {
 			ref, off := v.V[0].T, v.V[1].T
-			return &Seq{Len: itoa(arr.Len()), At: func(i string) string { return sel(mem, ref, add(off, i)) }}
+			return &Seq{Len: itoa(arr.Len()), At: func(i string) string { return x.vc.read(mem, ref, add(off, i)) }}
 		}
 	case *types.Basic:
 		if t.Info()&types.IsString != 0 {
@@ -564,6 +564,10 @@ func (env *Env) callExpr(n *ast.CallExpr) SV {
 		lo, hi := env.int(n.Args[1]), env.int(n.Args[2])
 		ch := env.child()
 		ch.names[id] = svInt(q)
+		ch.bound = map[string]bool{q: true}
+		for k := range env.bound {
+			ch.bound[k] = true
+		}
 		body := x.evalBool(ch, n.Args[3])
 		rng := and(sx("<=", lo, q), sx("<", q, hi))
 		if fn.Name == "forall" {
@@ -576,10 +580,9 @@ func (env *Env) callExpr(n *ast.CallExpr) SV {
 			parts = append(parts, env.toSeq(arg(i)))
 		}
 		return SV{K: SSeq, Seq: catSeq(x, parts)}
-	case "bytes", "seq":
-		if len(n.Args) == 1 {
-			return SV{K: SSeq, Seq: env.toSeq(arg(0))}
-		}
+	case "bytes":
+		return SV{K: SSeq, Seq: env.toSeq(arg(0))}
+	case "seq":
 		var elems []string
 		for i := range n.Args {
 			elems = append(elems, env.int(n.Args[i]))
@@ -600,7 +603,28 @@ func (env *Env) callExpr(n *ast.CallExpr) SV {
 		if len(n.Args) > 1 {
 			off = env.int(n.Args[1])
 		}
-		return svInt(beTerm(func(i int) string { return s.At(add(off, itoa(int64(i)))) }, nb))
+		val := beTerm(func(i int) string { return s.At(add(off, itoa(int64(i)))) }, nb)
+		// digit lemma (an arithmetic tautology): if the cells are bytes, they are the base-256 digits of the value
+		closed := true
+		for b := range env.bound {
+			if strings.Contains(val, b) {
+				closed = false
+			}
+		}
+		if closed && len(val) < 4000 {
+			key := "digits:" + val
+			if !x.vc.S.decl[key] {
+				x.vc.S.decl[key] = true
+				var rng, digs []string
+				for i := 0; i < nb; i++ {
+					c := s.At(add(off, itoa(int64(i))))
+					rng = append(rng, sx("<=", "0", c), sx("<=", c, "255"))
+					digs = append(digs, eq(beByte(val, nb, i), c))
+				}
+				x.vc.S.raw("(assert " + implies(and(rng...), and(digs...)) + ")")
+			}
+		}
+		return svInt(val)
 	case "zeros":
 		return SV{K: SSeq, Seq: &Seq{Len: env.int(n.Args[0]), At: func(string) string { return "0" }}}
 	case "min":
